@@ -257,6 +257,14 @@ impl Explorer<'_> {
                 }
                 Some(enabled)
             }
+            Err(e) if !relevant(&e) => {
+                // a failure of a *sibling* property's oracle: not this check's alarm; the history is
+                // not extended (the state can no longer be trusted)
+                if judged {
+                    self.rep.count("executions_failing_only_a_sibling_oracle", 1);
+                }
+                None
+            }
             Err(e) => {
                 if judged {
                     // must reproduce, twice, with the same description
@@ -407,6 +415,7 @@ fn explore_c20(ctx: &Ctx, rep: &mut Report, prefix_depth: usize, suffix_depth: u
 fn run(ctx: &Ctx) -> Report {
     let mut rep = Report::new();
     owning_iovec::verif::set_quarantine(true);
+    select_oracles(&ctx.prop);
     let t = ctx.tier;
     match ctx.prop.as_str() {
         "C03" => {
@@ -446,13 +455,24 @@ fn run(ctx: &Ctx) -> Report {
     rep
 }
 
-fn replay(_ctx: &Ctx, text: &str) -> Result<String, String> {
+fn select_oracles(prop: &str) {
+    match prop {
+        "C05" => set_oracles(&[Oracle::Liveness]),
+        "C10" => set_oracles(&[Oracle::Leak]),
+        "C20" => set_oracles(&[Oracle::Content, Oracle::Liveness]),
+        _ => set_oracles(&[Oracle::Content]),
+    }
+}
+
+fn replay(ctx: &Ctx, text: &str) -> Result<String, String> {
     owning_iovec::verif::set_quarantine(true);
+    select_oracles(&ctx.prop);
     let start = field(text, "start").and_then(Start::parse).unwrap_or(Start::Fresh);
     let Some(path) = field(text, "history").and_then(parse_path) else {
         machinery_failure("cannot parse history");
     };
     match run_history(start, &path, true) {
+        Err(e) if !relevant(&e) => Err(format!("[{}] only a sibling property's oracle fails: {}", render(&path), e)),
         Err(e) => Ok(format!("[{}] {}", render(&path), e)),
         Ok(()) => Err(format!("[{}] agrees with the reference pipe, nothing dangling, nothing leaked", render(&path))),
     }
